@@ -683,6 +683,28 @@ def parse(cls, data):
 """
 
 
+def _immutable_value(v: ast.AST, defs: Dict[str, ast.AST], depth: int = 0) -> bool:
+    """constants, immutable constructions, a bound method of one (`Struct(f).pack`), tuples of these, comparisons / arithmetic"""
+    if depth > 4:
+        return False
+    if isinstance(v, ast.Name) and v.id in defs:
+        return _immutable_value(defs[v.id], defs, depth + 1)
+    if isinstance(v, ast.Constant) or (isinstance(v, ast.Call) and norm(v.func) in IMMUTABLE_CTORS) or isinstance(v, (ast.Compare, ast.BinOp, ast.JoinedStr, ast.BoolOp)):
+        return True
+    if isinstance(v, ast.Attribute) and isinstance(v.value, ast.Call) and norm(v.value.func) in ("Struct", "struct.Struct") \
+            and v.attr in ("pack", "unpack", "unpack_from", "iter_unpack", "size", "format"):
+        return True
+    if isinstance(v, ast.Attribute) and isinstance(v.value, ast.Name) and v.value.id in defs and v.attr in ("pack", "unpack", "unpack_from", "iter_unpack", "size"):
+        return _immutable_value(defs[v.value.id], defs, depth + 1)
+    if isinstance(v, ast.Tuple):
+        return all(_immutable_value(x, defs, depth + 1) for x in v.elts)
+    if isinstance(v, ast.Call) and (norm(v.func) in ("pack", "struct.pack") or (isinstance(v.func, ast.Attribute) and v.func.attr in ("pack", "encode", "to_bytes", "hex"))):
+        return True             # bytes / str
+    if isinstance(v, ast.Call) and norm(v.func) in ("len", "isinstance", "ord", "chr", "min", "max", "sum", "abs", "divmod", "calcsize", "struct.calcsize"):
+        return True
+    return False
+
+
 def memoized_returns(repo: Repo, ci: Optional[ClassInfo], fn: ast.FunctionDef) -> Optional[List[Tuple[ast.AST, str]]]:
     """None if fn is not memoized; else [(return node, 'mutable' | 'immutable' | 'unknown')]."""
     decos = [norm(d.func if isinstance(d, ast.Call) else d) for d in fn.decorator_list]
@@ -698,8 +720,7 @@ def memoized_returns(repo: Repo, ci: Optional[ClassInfo], fn: ast.FunctionDef) -
             v = defs.get(n.value.id, n.value) if isinstance(n.value, ast.Name) else n.value
             if is_mutable_value(repo, ci, v) or (isinstance(v, ast.Call) and norm(v.func) in ("cls", "self.__class__", "type(self)")):
                 out.append((n, "mutable"))
-            elif isinstance(v, ast.Constant) or (isinstance(v, ast.Call) and norm(v.func) in IMMUTABLE_CTORS) \
-                    or isinstance(v, (ast.Compare, ast.BinOp, ast.JoinedStr)):
+            elif _immutable_value(v, defs):
                 out.append((n, "immutable"))
             else:
                 out.append((n, "unknown"))
